@@ -381,6 +381,32 @@ def write_evidence(check, tier, seed, ok, harness_errors, truncated, wall, n_new
         b = check.batches[0]
         samples.append({"batch": b.name, "index": 0, "scenario_abridged": abridge(scenario_for(check, b, seed, 0))})
     fired = {k: v for k, v in probes.items()}
+
+    def tot(*names, prefix=None):
+        n = sum(probes.get(x, 0) + stats.get(x, 0) for x in names)
+        if prefix:
+            n += sum(v for k, v in probes.items() if k.startswith(prefix))
+        return n
+    fault_kinds = {
+        "outage_then_clearing_round (no-exec session / halt / withheld matching)": tot("crossed_book_cleared"),
+        "book_events_while_not_running": tot("book_event_while_stopped", "accept_during_halt"),
+        "running_toggled_mid_history (driver B)": tot("running_toggled"),
+        "forced_round_on_stopped_market (driver B)": tot("forced_round_refused"),
+        "trading_halt": tot("halt_triggered"),
+        "price_limit_clip": tot("c15_clipped_high", "c15_clipped_low"),
+        "order_mistake_shock": tot("mistake_replaced"),
+        "fundamental_shock": tot("fund_shock_fired", "shock", "change_shock"),
+        "parameter_change (drift/vol/corr)": tot("change_drift", "change_vol", "change_corr", "change_uncorr"),
+        "hook_mutation_of_pending_order": tot("hook_altered_order"),
+        "ttl_race (fill or cancel in last live step, cancel of dead order)": tot("fill_in_last_live_step", "cancel_in_last_live_step", prefix="cancel_after_"),
+        "market_orders": tot("market_order_accepted"),
+        "hostile_agent_program": tot(prefix="hostile_") - tot(prefix="hostile_config_") - tot(prefix="hostile_rejected"),
+        "hostile_config": tot(prefix="hostile_config_rejected_"),
+        "env_noise (global generators / fresh interpreters)": tot("global_generator_perturbations", "fresh_interpreter_runs"),
+        "chunk_boundary (storage/generation knob or > 100 steps)": tot("storage_chunk_boundary_crossed", "generation_chunk_boundary_crossed"),
+        "caps_reached": tot("normal_cap_reached", "hft_cap_reached"),
+        "self_trade": tot("self_trade"),
+    }
     zero = [p for p in check.need_probes if probes.get(p, 0) == 0]
     ev = {
         "property_id": check.prop, "tier": tier, "seed": seed, "level": "exploration",
@@ -395,6 +421,7 @@ def write_evidence(check, tier, seed, ok, harness_errors, truncated, wall, n_new
             "jobs": jobs,
             "simulated_steps": steps,
             "events": {k: stats.get(k, 0) for k in sorted(stats)},
+            "fault_kinds_fired": {k: v for k, v in fault_kinds.items()},
             "fault_and_rare_condition_counters": {k: fired[k] for k in sorted(fired)},
             "rare_conditions_never_hit": zero,
             "distinct_book_states_before_rounds": len(sigs),
